@@ -1826,7 +1826,64 @@ def grid_cases(rng):
         for how in ('setflags @0', 'setro @0 1'):
             cases.append(Case(['new Pf3:1,0,-2', 'new Pf3:0,1,1', how, mut, 'toarray @0', 'setro @0 0', mut, 'toarray @0'],
                               {'kind': 'grid', 'cell': 'readonly'}))
-    cases += grid_logical(rng) + grid_array(rng) + grid_zero(rng)
+    cases += grid_logical(rng) + grid_array(rng) + grid_zero(rng) + grid_cancel(rng)
+    return cases
+
+
+def grid_cancel(rng):
+    """exact cancellation under every broadcasting relation: `x + y` / `x - y` (binary and in place) where some elements of
+    the result are exactly 0 although both operands are stored there; equal lengths, a length-1 LEFT operand broadcast over
+    the right one, a length-1 RIGHT operand; vector targets and arrays (row-wise, incl. rows of length 1); sparse and dense
+    operands.  The result must not store a zero.  (exact dyadic values: part of the model stream)"""
+    cases = []
+    def nz(k): return [rng.choice([0.5, 1.0, -1.0, 2.5, -2.5, 3.0, -4.0]) for _ in range(k)]
+    for op in ('add', 'sub'):
+        sign = -1.0 if op == 'add' else 1.0
+        for rel in ('eq', 'self1', 'other1'):
+            for ok in ('SV', 'list', 'nd', 'wrap'):
+                for inplace in (False, True):
+                    if inplace and rel == 'self1': continue      # (a length-1 target of an in-place operator: the listed growth class)
+                    for rep in range(3):
+                        n = rng.choice([2, 3, 4])
+                        sn, on = {'eq': (n, n), 'self1': (1, n), 'other1': (n, 1)}[rel]
+                        sv = nz(sn)
+                        if rel == 'other1':
+                            c = rng.choice(sv); sv = [c if rng.random() < 0.6 else x for x in sv]; sv[rng.randrange(sn)] = c
+                            ov = [sign * c]
+                        else:
+                            ov = [sign * sv[i % sn] if rng.random() < 0.6 else rng.choice([0.0, 1.5, -3.5]) for i in range(on)]
+                            ov[rng.randrange(on)] = sign * sv[0] if rel == 'self1' else ov[0]
+                            if rel == 'eq': ov[0] = sign * sv[0]
+                        ops = ['new ' + lit_token('P', 'f', [sn], sv)]
+                        if ok == 'SV': ops.append('new ' + lit_token('N', 'f', [on], ov)); b = '@1'
+                        elif ok == 'list': b = lit_token('P', 'f', [on], ov)
+                        elif ok == 'nd': b = lit_token('N', 'f', [on], ov)
+                        else: b = lit_token('P', 'f', [1, on], ov)
+                        ops += [f'{"ibin" if inplace else "bin"} {op} @0 {b}', 'toarray @0']
+                        cases.append(Case(ops, {'kind': 'grid', 'cell': f'cancel/{"i" if inplace else ""}{op}/{ok}/{rel}'}))
+            # row-wise through an array: rows of length `sn` against a vector / an array / a literal of width `on`
+            for ok in ('SV', 'SA', 'SA1', 'vec', 'mat'):
+                for inplace in (False, True):
+                    if inplace and rel == 'self1': continue
+                    for rep in range(2):
+                        n = rng.choice([2, 3]); m = 2
+                        sn, on = {'eq': (n, n), 'self1': (1, n), 'other1': (n, 1)}[rel]
+                        rows = [nz(sn) for _ in range(m)]
+                        if rel == 'other1':
+                            c = rows[0][0]
+                            for r in rows: r[rng.randrange(sn)] = c
+                            orow = lambda r: [sign * c]
+                        else:
+                            orow = lambda r: [sign * r[i % sn] if (i == 0 or rng.random() < 0.6) else rng.choice([0.0, 1.5]) for i in range(on)]
+                        ops = ['new ' + lit_token('P', 'f', [m, sn], [x for r in rows for x in r])]
+                        nid = m + 1
+                        if ok == 'SV': ops.append('new ' + lit_token('P', 'f', [on], orow(rows[0]))); b = f'@{nid}'
+                        elif ok == 'SA': ops.append('new ' + lit_token('P', 'f', [m, on], [x for r in rows for x in orow(r)])); b = f'@{nid + m}'
+                        elif ok == 'SA1': ops.append('new ' + lit_token('P', 'f', [1, on], orow(rows[1]))); b = f'@{nid + 1}'
+                        elif ok == 'vec': b = lit_token('N', 'f', [on], orow(rows[1]))
+                        else: b = lit_token('P', 'f', [m, on], [x for r in rows for x in orow(r)])
+                        ops += [f'{"ibin" if inplace else "bin"} {op} @{m} {b}', f'toarray @{m}']
+                        cases.append(Case(ops, {'kind': 'grid', 'cell': f'cancel/sa/{"i" if inplace else ""}{op}/{ok}/{rel}'}))
     return cases
 
 
